@@ -693,6 +693,17 @@ def s_merge_in(g, tier):
 def s_cat_substr(g, tier):
     """C16"""
     out = s_unbracketed(["cat", "substr"])
+    # multi-byte characters astride every power-of-two byte offset (64 … 4096) of longer strings; starts before / at / after the offset, from both ends
+    for base in (32, 64, 128, 256, 1024, 4096):
+        for unit in ("é", "€", "😀"):
+            for off in range(-4, 3):
+                sv = "a" * max(0, base + off - 1) + unit * 2 + "tail-" + unit + "z"
+                n_ = len(sv)
+                for st in (base - 2, base - 1, base, base + 1, base + 3, n_ - 3, -10, -3, -1, -(n_ - base), 0, 1):
+                    for ln in ((None, 1, 3, -2) if st in (base, base + 1, -10, -3) else (None, 2)):
+                        args = [{"var": "s"}, st] + ([] if ln is None else [ln])
+                        out.append(app({"substr": args}, {"s": sv}))
+                out.append(app({"cat": [{"var": "s"}, unit, {"var": "s"}]}, {"s": sv}))
     alphabet = ["a", "é", "€", "😀"]
     maxlen = 4 if tier == "quick" else 5
     idxs = list(range(-7, 8)) + [I64MIN, I64MAX, I64MIN + 1, 2 ** 32, -2 ** 32]
